@@ -83,6 +83,9 @@ fn main() {
         }
         wr(&mut ixa, "CREATE INDEX ON :L(x)");
         println!("== SAMYAMA_GRAPH_NATIVE={}", native);
+        for q in ["EXPLAIN MATCH (n:L) WHERE n.x > 5 RETURN n.t", "EXPLAIN MATCH (n:L {x: 1}) RETURN n.t", "EXPLAIN MATCH (n:L)-[:R]->(m:L) WHERE m.x > 5 RETURN n.t"] {
+            println!("{:?}", QueryEngine::new().execute(q, &ixb).map(|b| b.records.iter().map(|r| format!("{:?}", r)).collect::<Vec<_>>()).map_err(|e| e.to_string()));
+        }
         for q in queries {
             let a = rows(&plain, q);
             let b = rows(&ixb, q);
